@@ -526,11 +526,14 @@ func init() {
 		checkActionTyping(r, ga, "c19")
 		if len(a.Missing) == 0 {
 			checkASTIntegrity(r, prog, a, "c19")
+			checkDumpPanicSites(r, prog, a, ga, "c19")
 		}
 		// what is rendered is what was parsed: the selector nodes carry their type and parts as written, in memory of
 		// their own
 		r.importing = "C07"
 		checkSelectorGrammar(r, ga, "c07")
+		r.importing = "C01"
+		checkBindingModes(r, prog, ga, "c01") // "ALL/ANY with binding": the names printed are the names that were written, each under its own mode
 		r.importing = ""
 		r.Technique = "constant-table extraction from the String methods against the documented names; structural-induction obligations on every ExpressionDump method by symbolic execution (event order, argument identity); operator/value pairing for the literal dereference; tree integrity and action typing for termination"
 		r.Explain = "Decides: every operator constant renders as the documented name (exhaustive, pairwise distinct), ALL/ANY and the four binding forms likewise; every composite ExpressionDump writes an opening line, dumps each Expression-typed field of its receiver exactly once in declaration order with (the same writer, the same indent string, level+1), then writes a closing line; every line has a constant format and is prefixed by strings.Repeat(indent, level) (level+1 inside a leaf) — by induction over tree height this is pre-order with one indent level per tree level at every depth; the leaf names its operator through MatchOperator.String, prints the selector through Selector.String (dotted / slash-joined / empty), and dereferences and quotes the literal only for operators the grammar always builds with a literal; children are non-nil and the tree is acyclic and never modified after parsing, so the recursion terminates without panicking. NOT decided: byte-exact layout inside the constant format strings."
@@ -584,4 +587,28 @@ func hasField(nt *types.Named, name string) bool {
 		}
 	}
 	return false
+}
+
+// checkDumpPanicSites: the rendering functions (ExpressionDump of every node type, the String methods they print
+// through) contain no unproven assertion, index, slice, explicit panic or call into foreign code on a value of the tree:
+// "a syntax tree returned without error is dumped without panicking". (Dereferences of the literal are decided by the
+// operator/value pairing of checkLeafDump.)
+func checkDumpPanicSites(r *Run, prog *Program, a *Anchors, ga *GA, pfx string) {
+	roots := map[*ssa.Function]bool{}
+	for _, fn := range prog.ModuleFuncs() {
+		if fn.Pkg != prog.GrammarSSA || fn.Signature.Recv() == nil {
+			continue
+		}
+		if fn.Name() == "ExpressionDump" || (fn.Name() == "String" && fn.Signature.Params().Len() == 0) {
+			roots[fn] = true
+		}
+	}
+	if len(roots) < 4 {
+		r.Fail("unresolved-anchor", pfx+".panic-site", "dump-roots", "grammar/ast.go", "rendering methods not found")
+		return
+	}
+	saved := c09SiteKinds
+	c09SiteKinds = map[string]bool{"type-assert": true, "foreign-invoke": true, "index": true, "slice": true, "explicit-panic": true, "dynamic-call": true, "division": true}
+	checkPanicSites(r, prog, a, pfx, roots, ga, false, 0)
+	c09SiteKinds = saved
 }
